@@ -320,4 +320,34 @@ theorem rshift_eq (vt : VTState) (r : Int) (hm : vt.inMargins) :
     congr 1; funext l c
     cells_omega
 
+/-! ### Tabulation used by the driver executable is the identity on the screen -/
+
+theorem compact_grid (vt : VTState) (l c : Int) (h : vt.inScreen l c) : (vt.compact).grid l c = vt.grid l c := by
+  obtain ⟨h1, h2, h3, h4⟩ := h
+  have hc : 0 ≤ l ∧ l < vt.lines ∧ 0 ≤ c ∧ c < vt.cols := ⟨h1, h2, h3, h4⟩
+  simp only [VTState.compact, hc, and_self, if_true]
+  have hl : l.toNat < vt.lines.toNat := by omega
+  have hcc : c.toNat < vt.cols.toNat := by omega
+  have hidx : l.toNat * vt.cols.toNat + c.toNat < vt.lines.toNat * vt.cols.toNat := by
+    have : (l.toNat + 1) * vt.cols.toNat ≤ vt.lines.toNat * vt.cols.toNat := Nat.mul_le_mul_right _ hl
+    rw [Nat.add_mul] at this
+    omega
+  have hpos : 0 < vt.cols.toNat := by omega
+  rw [Array.getD_eq_getD_getElem?, Array.getElem?_ofFn]
+  simp only [hidx, dif_pos, Option.getD_some]
+  have e1 : (l.toNat * vt.cols.toNat + c.toNat) / vt.cols.toNat = l.toNat := by
+    rw [Nat.mul_comm, Nat.mul_add_div hpos, Nat.div_eq_of_lt hcc, Nat.add_zero]
+  have e2 : (l.toNat * vt.cols.toNat + c.toNat) % vt.cols.toNat = c.toNat := by
+    rw [Nat.mul_comm, Nat.mul_add_mod, Nat.mod_eq_of_lt hcc]
+  rw [e1, e2]
+  congr 1 <;> omega
+
+/-- … and leaves every other component alone. -/
+theorem compact_fields (vt : VTState) :
+    vt.compact.lines = vt.lines ∧ vt.compact.cols = vt.cols ∧ vt.compact.row = vt.row ∧ vt.compact.col = vt.col ∧
+    vt.compact.pendingWrap = vt.pendingWrap ∧ vt.compact.top = vt.top ∧ vt.compact.bottom = vt.bottom ∧
+    vt.compact.left = vt.left ∧ vt.compact.right = vt.right ∧ vt.compact.declrmm = vt.declrmm ∧
+    vt.compact.bg = vt.bg ∧ vt.compact.rv = vt.rv ∧ vt.compact.ps = vt.ps :=
+  ⟨rfl, rfl, rfl, rfl, rfl, rfl, rfl, rfl, rfl, rfl, rfl, rfl, rfl⟩
+
 end Tickit.VT
